@@ -253,6 +253,7 @@ def run(ctx):
                 ctx.ob("R16.2", "erase#%d|edge-of-the-reported-cycle" % i, on_cycle, fw.loc(e),
                        "%s gives up %s" % (show(e), "the edge cycle[i] -> cycle[i+1] of the cycle just found" if on_cycle else "an edge that is not (recognisably) consecutive elements of the cycle just found"))
         ctx.ob("R16.2", "erase#%d" % i, ok, fw.loc(e), "%s: %s" % (show(e), why))
+    _library_keys(ctx, fw)
     # emission loops
     n_em = 0
     for n in fw.walk():
@@ -275,3 +276,69 @@ def cfg_ok(fn, assign_node, push):
     """the flag assignment that sits next to the push (added_any = true)"""
     a, b = fn.cfg.locate(assign_node), fn.cfg.locate(push)
     return a is not None and b is not None and a[0] == b[0]
+
+
+
+def _library_keys(ctx, fw):
+    """R16.3: `references each library that contributes to the module exactly once` - the libraries emitted are the keys
+    of `dependencies`, so every library name read off a contributing function or type must become a key, whether or not
+    the entity has any cross-library edge."""
+    db = ctx.db
+    ctx.rule("R16.3", "in write_python_table_native every `library_name` read from a contributing function/type is made a key of `dependencies` unconditionally in the same block (operator[] / emplace / insert on the map), not only where an edge is inserted")
+    dep = None
+    for n in fw.walk():
+        if n.get("k") == "decls":
+            for d in n["d"]:
+                if d["n"] == "dependencies" or ("map" in d.get("ct", d.get("t", "")) and "set" in d.get("ct", d.get("t", "")) and dep is None):
+                    dep = d
+    if dep is None:
+        ctx.broken("write_python_table_native: the dependencies map not found")
+    n_names = 0
+    for n in fw.walk():
+        if n.get("k") != "decls":
+            continue
+        for d in n["d"]:
+            i = strip_casts(peel(d.get("init"))) if d.get("init") is not None else None
+            while i is not None and i.get("k") == "ctor" and len([q for q in i.get("a", []) if q.get("k") != "defarg"]) == 1:
+                i = strip_casts(peel(i["a"][0]))
+            if i is None or i.get("k") != "call" or i.get("f") not in ("interrogate_type_library_name", "interrogate_function_library_name"):
+                continue
+            # only the names of entities that contribute (the loop's own entity), not of a base / wrapped type
+            arg = local_ref(i["a"][0]) if i.get("a") else None
+            owner = False
+            if arg is not None:
+                for st in fw.walk():
+                    if st.get("k") == "decls":
+                        for dd in st["d"]:
+                            ii = strip_casts(peel(dd.get("init"))) if dd.get("init") is not None else None
+                            if dd.get("d") == arg.get("d") and ii is not None and ii.get("k") == "call" and ii.get("f") in ("interrogate_get_global_type", "interrogate_get_type", "interrogate_get_function", "interrogate_get_global_function"):
+                                owner = True
+            if not owner:
+                continue
+            n_names += 1
+            blk = next((a for a in fw.ancestors(n) if a.get("k") == "block"), None)
+            ok = False
+            where = fw.loc(n)
+            for c in fw.walk():
+                if c.get("k") != "call" or callee_short(c) not in ("operator[]", "emplace", "try_emplace", "insert"):
+                    continue
+                subj = c["a"][0] if callee_short(c) == "operator[]" and c.get("opc") else c.get("this")
+                if (local_ref(subj) or {}).get("d") != dep["d"]:
+                    continue
+                keyargs = c["a"][1:] if callee_short(c) == "operator[]" and c.get("opc") else c.get("a", [])
+                if not any(x.get("k") == "ref" and x.get("d") == d["d"] for a in keyargs for x in walk(a)):
+                    continue
+                between = []
+                for a in fw.ancestors(c):
+                    if a is blk:
+                        break
+                    between.append(a.get("k"))
+                else:
+                    continue    # not inside the declaration's block
+                if not any(k in ("if", "for", "forrange", "while", "do", "switch", "cond") for k in between):
+                    ok = True
+                    where = fw.loc(c)
+            ctx.ob("R16.3", "write_python_table_native|%s-of-%s|becomes-a-key" % (d["n"], arg["n"]), ok, where,
+                   "the library of every contributing %s is %sregistered in `dependencies` unconditionally" % ("type" if "type" in i.get("f", "") else "function", "" if ok else "NOT "))
+    ctx.floor("R16.3", "library names read from contributing entities", n_names, 2)
+
